@@ -46,6 +46,8 @@ type G struct {
 	titles []string
 	lineID int
 	vars   []string
+	// the host registers handlers named wait and stop (commands named wait are only generated then: the built-in sleeps)
+	hostWait bool
 }
 
 func (g *G) numLit() *ast.Expr {
@@ -419,6 +421,9 @@ func (g *G) body(depth, n int) []*ast.Stmt {
 			}
 		case "cmd":
 			name := r.Pick("cmd", "cmd", "cmd", "failing", "unknowncmd")
+			if g.hostWait && r.Intn(4) == 0 {
+				name = "wait"
+			}
 			if g.P.Ctl && r.Intn(2) == 0 {
 				name = "ctl"
 			}
@@ -486,6 +491,7 @@ func value(r *prng.R, ty string) *sexp.S {
 // RunCase generates one case of the run stream.
 func RunCase(r *prng.R, p *Profile, id string) *sexp.S {
 	g := &G{R: r, P: p}
+	g.hostWait = p.Weights["cmd"] > 0 && r.Intn(3) == 0
 	nn := 1 + r.Intn(p.MaxNodes)
 	g.titles = []string{"Start", "A", "B", "C_1"}[:nn]
 	if p.Untracked && nn >= 3 && r.Intn(10) == 0 {
@@ -536,6 +542,14 @@ func RunCase(r *prng.R, p *Profile, id string) *sexp.S {
 			}
 		} else {
 			n.Body = append(n.Body, g.body(0, 1+r.Intn(6))...)
+		}
+		if i == 0 && p.Weights["cmd"] >= 8 && r.Intn(20) == 0 {
+			// a long run of statements that present nothing: every one of them is executed, in order, by one Next call
+			var chain []*ast.Stmt
+			for k, m := 0, 110+r.Intn(90); k < m; k++ {
+				chain = append(chain, &ast.Stmt{Kind: "cmd", Cmd: []ast.CmdEl{{Word: "cmd"}, {Word: strconv.Itoa(k)}}})
+			}
+			n.Body = append(n.Body[:1], append(chain, n.Body[1:]...)...)
 		}
 		prog.Nodes = append(prog.Nodes, n)
 	}
@@ -645,6 +659,10 @@ func RunCase(r *prng.R, p *Profile, id string) *sexp.S {
 		}
 	}
 	c := sexp.L(sexp.A("case"), sexp.A("run"), sexp.A(id), srcs, prog.Sexp(), sexp.L(sexp.A("seed"), sexp.Str(r.Pick("seed", "abc", "0", "z9", "verif1"))), vars, ops)
+	if g.hostWait {
+		// the host has handlers of its own under the names of the two built-ins: "wait" is replaced by it, "stop" never reaches it
+		c.Add(sexp.L(sexp.A("cmds"), sexp.Str("wait"), sexp.Str("stop")))
+	}
 	return c
 }
 
